@@ -103,7 +103,7 @@ class Thread:
         self.cpu = None
         self.out_of_cpu = False
         self.q = {}            # (model, name) -> int | ("L",label) | list(stack) | None
-        self.bodies = []       # task stack (top last): Body objects
+        self.bodies = {"V": [], "6": []}   # per task model: body stack (top last)
         self.flushing = False
 
 
@@ -792,7 +792,7 @@ class Model:
                     raise Reject("event", "non-parallel task needs body id 0")
         if tid == 0:
             raise Reject("unclaimed", "task id 0")
-        stack = th.bodies
+        stack = th.bodies[m]
         top = stack[-1] if stack else None
         ssq = (m, "subsystem")
         body_label = L(L_TASK_BODY[m])
